@@ -188,18 +188,21 @@ Definition handle_outgoing_packet5 (s : state5) (r : request5) : R5 (option pack
   | R5PubComp _ | R5PingResp | R5SubAck _ | R5UnsubAck _ => Panic P_UNIMPLEMENTED
   end.
 
-(** [handle_incoming_connack] *)
+(** [handle_incoming_connack]: a receive-maximum of 0 is a protocol error (fix: commit b2fc5b9, F37;
+    ConnectReturnCode::ProtocolError = 130) detected after [topic_alias_max] was taken over and
+    before the limit and the allocator are touched *)
 Definition handle_incoming_connack5 (s : state5) (code : N) (rm tam : option N) : R5 (option packet5) :=
   if negb (code =? 0) then Err (s, E5ConnFail code)
   else
     let s := match tam with Some t => u_alias_max s t | None => s end in
-    let s := match rm with
-             | Some m =>
-                 let s := u_max s (N.min m (s5_max_limit s)) in
-                 if s5_max s <=? s5_last_pkid s then u_last_pkid s 0 else s
-             | None => s
-             end in
-    Ok (s, None).
+    match rm with
+    | Some m =>
+        if m =? 0 then Err (s, E5ConnFail 130)
+        else
+          let s := u_max s (N.min m (s5_max_limit s)) in
+          Ok ((if s5_max s <=? s5_last_pkid s then u_last_pkid s 0 else s), None)
+    | None => Ok (s, None)
+    end.
 
 (** [handle_incoming_publish]: alias bookkeeping first; an unknown alias on an empty topic is a
     protocol error: DISCONNECT (0x82) is announced and returned to be written, nothing else happens *)
